@@ -14,6 +14,7 @@ import (
 	"net"
 	"os"
 	"reflect"
+	"runtime"
 	"strings"
 )
 
@@ -32,6 +33,9 @@ type Result struct {
 	Outcome  string   `json:"outcome"` // return | panic | assert-fail:<label> | assume-false | process-exit
 	Panic    string   `json:"panic,omitempty"`
 	Observes []string `json:"observes"`
+	// bytes allocated between AllocLimit(n) and the end of the harness, and whether that is above n
+	AllocBytes uint64 `json:"alloc_bytes,omitempty"`
+	OverAlloc  bool   `json:"over_alloc,omitempty"`
 }
 
 type assumeFalse struct{}
@@ -161,17 +165,27 @@ func And(a, b bool) bool       { return a && b }
 func Or(a, b bool) bool        { return a || b }
 func Implies(a, b bool) bool   { return !a || b }
 func LoopBound(n int)          {}
-func AllocLimit(n int)         {}
-func MonitorShared(on bool)    {}
-func Ownership(on bool)        {}
-func Symbolic() bool           { return false }
+
+// AllocLimit(n): no single allocation of the code that follows may exceed n bytes (engine: every
+// make / append is checked). Natively the bytes allocated from here to the end of the harness
+// are measured and reported (a single allocation above n implies a total above n).
+func AllocLimit(n int) {
+	var ms runtime.MemStats
+	runtime.ReadMemStats(&ms)
+	allocLimit, allocBase = uint64(n), ms.TotalAlloc
+}
+
+var allocLimit, allocBase uint64
+
+func MonitorShared(on bool) {}
+func Ownership(on bool)     {}
+func Symbolic() bool        { return false }
 
 // ConcreteInputs(true) makes the scalar and byte inputs that follow fixed constants (0xa5 in
 // every byte, false for Bool) instead of symbolic values, until ConcreteInputs(false).
 func ConcreteInputs(on bool) { concreteInputs = on }
 
 var concreteInputs bool
-
 
 // Thorough reports whether the thorough tier is running (harnesses widen their bounds).
 func Thorough() bool { return cur != nil && cur.Values["__tier"] == "1" }
@@ -441,8 +455,15 @@ func RunCase(c *Case, harnesses map[string]func()) (res Result) {
 		res.Outcome = "no-such-harness"
 		return
 	}
+	allocLimit = 0
 	defer func() {
 		res.Observes = observes
+		if allocLimit > 0 {
+			var ms runtime.MemStats
+			runtime.ReadMemStats(&ms)
+			res.AllocBytes = ms.TotalAlloc - allocBase
+			res.OverAlloc = res.AllocBytes > allocLimit
+		}
 		if r := recover(); r != nil {
 			switch e := r.(type) {
 			case assumeFalse:
